@@ -73,8 +73,8 @@ CHECKS.update({
         text='Theorems (partial at document level): for all element trees, url rules, spacer caps and every contiguous opcode list, the chunk stream of the insertions (deletions) view minus marker tags equals the flattened new (old) page up to blank chunks; tokenising, the spacer cap and token customisation conserve every chunk; text chunks never contain "<" so no text becomes markup; include=all computes the same single-sided streams as include=insertions/deletions. The model (flatten, tokenise, customise, cap, comparators, difflib, merge) is tied char-for-char to _htmldiff on generated and hand-picked pairs; observers check text, word separation and block/br/img/control/script structure of each view against its page on the real html_diff_render, including pages beyond the spacer cap.',
         note=RENDER_NOTE, design='5/C01'),
     'C02': dict(
-        technique='Coq proof (partial): grouping of changed tokens conserves every chunk and keeps text inside closed groups; tokenising and both single-sided halves conserve their page + char-for-char extracted-model correspondence of the combined stream (reconciliation included) + document-level observer (multiset of text on each side of the combined view)',
-        text='Theorems (partial): merge_change_groups emits every chunk of a changed run exactly once in order, text only inside groups, groups closed; the labelled grouping refines the executable model; tokenising conserves both pages for every cap; for any contiguous opcodes both halves conserve their page. The reconciliation of inserted and deleted groups is modelled (Model/RenderMerge.v reconcile) and tied char-for-char to _htmldiff, its conservation is not yet a theorem: the observer decides it per input on html_diff_render (text outside del markers = new page text, outside ins markers = old page text, as multisets).',
+        technique='Coq proof at chunk-stream level: the combined stream is a sequence of whole items in which every group of the new side (inserted or unchanged) and every deleted group occurs exactly once and everything else is a tag - by an invariant over all 25 branches of the reconciliation state machine (buffers hold whole items; deleted-side buffer holds only marked groups), its loop, the two splits of unchanged runs and the fold over ANY opcode list; grouping and tokenising conserve every chunk + char-for-char extracted-model correspondence + document-level observer',
+        text='Theorems (partial at document level only): reconcile_change_groups returns, for all item lists whose loose items are tags and whose deleted groups carry the deletion marker (both proved of the grouping output), a flattening of items containing every group of both sides exactly once (Permutation) and otherwise tags - whichever early exit is taken; assemble_diff in combined mode, for all token lists and all opcode lists, emits every new-side group and every deleted group exactly once; grouping emits every chunk of a run once, text only inside groups; tokenising conserves both pages for every cap. The re-parse of the stream by html5-parser is decided per input by the observer on html_diff_render (text outside del markers = new page text, outside ins markers = old page text, as multisets).',
         note=RENDER_NOTE, design='5/C02'),
     'C03': dict(
         technique='Coq proof: identity (a page against itself has the single Equal opcode, zero counts and no marker in any stream) for all trees via the aligned-sequences theorem about the difflib model; counts consistency; no markers when count is 0; opcode cover + extracted-model correspondence + observers (identity on every generated page and beyond the spacer cap; detection of text differences)',
@@ -85,8 +85,8 @@ CHECKS.update({
         text='Theorems: for all strings html.escape contains neither "<" nor ">" (nor quotes with quote=True), and unescape inverts it; for all trees every word, trailing-whitespace and body-text chunk of the flattened page is escape output, so no text chunk starts a tag; the marker machine emits chunks verbatim (no re-interpretation); script/style/svg/template elements are single opaque chunks. Observer on html_diff_render: every script/style element in any view is verbatim one of the input page, deleted ones sit inside template.wm-diff-deleted-inert, the title diff meta contains no active markup, escaped payloads in text/attributes/title stay text.',
         note=RENDER_NOTE, design='5/C09'),
     'C15': dict(
-        technique='Coq proof: scan invariant of the marker state machine (no block-level tag chunk between an opening and closing marker) for all chunk lists and all contiguous opcodes (single-sided views), groups closed for the combined grouping; labelled machines refine the executable model + extracted-model correspondence + document-level observer (no block element inside ins/del.wm-diff in any view)',
-        text='Theorems: for every chunk list, merge_changes never leaves a block-level tag between marker open and close and ends with the marker closed; the same for the whole single-sided view under any contiguous opcode list; merge_change_groups only produces closed groups (marker opened and closed inside, no block tag inside); block names are the regenerated table. Combined-view reconciliation order is modelled and tied by correspondence, and decided per input by the observer (partial).',
+        technique='Coq proof: scan invariant of the marker state machine (no block-level tag chunk between an opening and closing marker) for all chunk lists and all contiguous opcodes (single-sided views), combined view = sequence of closed groups and loose tags for all opcode lists (through reconciliation); labelled machines refine the executable model + extracted-model correspondence + document-level observer (no block element inside ins/del.wm-diff in any view)',
+        text='Theorems: for every chunk list, merge_changes never leaves a block-level tag between marker open and close and ends with the marker closed; the same for the whole single-sided view under any contiguous opcode list; merge_change_groups only produces closed groups; the combined stream, for all token lists and all opcode lists and through reconciliation, is a sequence of whole closed groups and loose tags (C15_combined); block names are the regenerated table. Partial only at document level (the HTML re-parse, decided per input by the observer).',
         note=RENDER_NOTE, design='5/C15'),
 })
 
